@@ -2,9 +2,13 @@ Section B2C.
   Context {C : Type} (keq : C -> C -> bool) (is_str : C -> bool) (none_c : C) (str_c : str -> C).
   Definition blocks_to_constants (blocks : list (list (instr_ C))) (additional_args : list (arg_ C)) (block_type : option function) : res (list C) :=
     let step := fun (a : arg_ C) (st : encstate C) => match a with AConst _ _ => do r <- PCD.Gen.SrcFromArg.from_arg keq is_str none_c a block_type [] st; OK (snd r) | _ => OK st end in
-    do constants <- (match block_type with Some f => match fn_doc f with Some d => fa_setitem keq fromargs_empty 0 (str_c d) | None => OK fromargs_empty end | None => OK fromargs_empty end);
+    do constants <- (match block_type with Some f => match fn_doc f with Some d => fa_setitem keq fromargs_empty 0 (str_c d) | _ => OK fromargs_empty end | None => OK fromargs_empty end);
     let st := mkEnc (@fromargs_empty str) (@fromargs_empty str) (@fromargs_empty str) constants in
     do st <- foldM (fun st block => foldM (fun st instruction => step (i_arg instruction) st) block st) blocks st; do st <- foldM (fun st arg => step arg st) additional_args st; fa_to_tuple (e_consts st).
+  Definition enc_init (block_type : option function) : res (encstate C) :=
+    do varnames <- (match block_type with Some f => foldM (fun t ik => fa_setitem str_eqb t (fst ik) (snd ik)) (combine (map Z.of_nat (seq 0 (length (args_to_varnames (fn_args f))))) (args_to_varnames (fn_args f))) fromargs_empty | None => OK fromargs_empty end);
+    do constants <- (match block_type with Some f => match fn_doc f with Some d => fa_setitem keq fromargs_empty 0 (str_c d) | _ => OK fromargs_empty end | None => OK fromargs_empty end);
+    OK (mkEnc fromargs_empty varnames fromargs_empty constants).
 End B2C.
 Definition iter_code_data (d : code_data) : res (list code_data) :=
   do ks <- blocks_to_constants key_eqb is_str_const (KInner INone) (fun s => KInner (IStr s)) (cd_blocks d) (cd_addargs d) (cd_type d);
